@@ -34,12 +34,24 @@ pub fn check(rep: &mut Rep, w: &World, sc: i128, ss: TimeScale, ec: i128, es: Ti
         return;
     }
     let dyn_mixed = es != ss && (is_dyn(es) || is_dyn(ss));
+    let mut span = span;
     if dyn_mixed {
-        let r = span % step;
-        if r <= 100 || step - r <= 100 {
+        if (ss == TimeScale::UTC || es == TimeScale::UTC) && (w.near_utc_discontinuity(t_end, 100) || w.near_utc_discontinuity(t_start, 100)) {
             return;
         }
-        if (ss == TimeScale::UTC || es == TimeScale::UTC) && (w.near_utc_discontinuity(t_end, 100) || w.near_utc_discontinuity(t_start, 100)) {
+        // the bound of the statement is `end - start`, which for an ET / TDB operand is only fixed to C07's tolerance: the
+        // series is judged against the difference the library itself reports (C04 keeps that one within tolerance), so a
+        // span within a few ns of a multiple of the step is decided exactly instead of being left open
+        match guard(|| ep(ec, es) - ep(sc, ss)) {
+            Ok(d) if (count_d(d) - span).abs() <= 100 => span = count_d(d),
+            _ => {
+                let r = span % step;
+                if r <= 100 || step - r <= 100 {
+                    return;
+                }
+            }
+        }
+        if span < 0 {
             return;
         }
     }
